@@ -198,7 +198,8 @@ def build(env, topo, full=False, units=None, opt=None):
         imax = _val(env, full, 'imax', mt['imax'][0], lo=0, lo_open=True)
         if full:
             env.assume(T(i0) < T(imax))
-        kw.update(no_load_electric_current=q('Current', i0, 'A', 'i'), maximum_electric_current=q('Current', imax, 'A', 'i'))
+        kw.update(no_load_electric_current=q('Current', i0, 'A', 'i0u' if 'i0u' in units else 'i'),
+                  maximum_electric_current=q('Current', imax, 'A', 'imaxu' if 'imaxu' in units else 'i'))
     motor = mo.DCMotor(**kw)
     objs = [motor]
     Js = [J0]
